@@ -70,6 +70,8 @@ pub struct WalletEnv {
   pub cli_dir: tempfile::TempDir,
   pub funds: VecDeque<Fund>,
   pub cli: PathBuf,
+  /// every non-coinbase transaction mined so far, in order
+  pub mined: Vec<Transaction>,
   nonce: u32,
 }
 
@@ -96,6 +98,7 @@ impl WalletEnv {
       cli_dir: crate::node::scratch_dir(),
       funds: VecDeque::new(),
       cli: cli_path(),
+      mined: Vec::new(),
       nonce: 0,
     };
     let created = env.wallet(&["create"], &[])?;
@@ -145,6 +148,7 @@ impl WalletEnv {
         height,
       });
       let mut txdata = vec![coinbase];
+      self.mined.extend(txs.iter().cloned());
       txdata.extend(txs);
       let block = make_block(prev, height, self.nonce, txdata);
       self.server.node.append_block(&block);
